@@ -34,6 +34,7 @@ const (
 
 type mval struct {
 	k    mvKind
+	mode bool // derives from the --mode flag (fixed-mode walks)
 	s    string
 	b    bool
 	tup  []mval
@@ -80,6 +81,8 @@ type modeEnd struct {
 
 type modeWalker struct {
 	p        *core.Program
+	fixed    *string                // when set, the flag holds this accepted constant (instead of "no accepted constant")
+	called   map[*ssa.Function]bool // in-repo functions called on some path after the flag was read
 	accepted map[string]bool
 	steps    int
 	maxSteps int
@@ -139,6 +142,9 @@ func (mw *modeWalker) newFrame(fn *ssa.Function, args, free []mval) *mFrame {
 }
 
 func tainted(v mval) bool {
+	if v.mode {
+		return true
+	}
 	switch v.k {
 	case mvMode:
 		return true
@@ -572,7 +578,11 @@ func (mw *modeWalker) callInline(fr *mFrame, pt *mPath, c *ssa.Call, b *ssa.Basi
 		switch {
 		case recvCLI && pkg == "github.com/urfave/cli/v2" && name == "String" && len(args) == 2 && args[1].k == mvStr && args[1].s == "mode":
 			pt.modeRead = true
-			setRes(mval{k: mvMode})
+			if mw.fixed != nil {
+				setRes(mval{k: mvStr, s: *mw.fixed, mode: true})
+			} else {
+				setRes(mval{k: mvMode})
+			}
 			return false
 		case pkg == "fmt" && name == "Errorf", pkg == "errors" && name == "New":
 			setRes(mval{k: mvNonNil})
@@ -597,6 +607,9 @@ func (mw *modeWalker) callInline(fr *mFrame, pt *mPath, c *ssa.Call, b *ssa.Basi
 				setRes(mval{k: mvBool, b: false})
 			}
 			return false
+		}
+		if mw.called != nil && pt.modeRead && core.InRepo(pkgPathOf(callee)) {
+			mw.called[callee] = true
 		}
 		follow := false
 		if len(callee.Blocks) > 0 && core.InRepo(pkgPathOf(callee)) && depth < 8 {
@@ -669,4 +682,23 @@ func (mw *modeWalker) funcsWithInit(pkg *ssa.Package) []*ssa.Function {
 		}
 	}
 	return out
+}
+
+// calledUnderMode walks the action with the flag fixed to the accepted constant m and returns the in-repo functions called
+// after the flag was read, on any path (helpers that receive the flag value are followed).
+func calledUnderMode(p *core.Program, action *ssa.Function, accepted map[string]bool, m string) map[*ssa.Function]bool {
+	mw := &modeWalker{p: p, accepted: accepted, maxSteps: 400000, ends: map[string]modeEnd{}, inlined: map[string]bool{}, fixed: &m, called: map[*ssa.Function]bool{}}
+	if action == nil || len(action.Blocks) == 0 {
+		return mw.called
+	}
+	fr := mw.newFrame(action, nil, nil)
+	pt := &mPath{cells: map[string]mval{}}
+	mw.walk(fr, pt, action.Blocks[0], 0, nil, map[*ssa.BasicBlock]int{}, 0, func(*mFrame, *mPath, []mval, token.Pos) {})
+	// functions that were followed (they received the flag value) are dispatchers, not what the constant selects
+	for fn := range mw.called {
+		if mw.inlined[fn.String()] {
+			delete(mw.called, fn)
+		}
+	}
+	return mw.called
 }
